@@ -458,9 +458,14 @@ int64_t cmb_process_wait_process(struct cmb_process *awaited)
          * or the awaited process will wake us out of some later, unrelated wait.
          */
         if (cmi_process_remove_awaitable(me, CMI_PROCESS_AWAITABLE_PROCESS, awaited)) {
-            if (!cmi_process_remove_waiter(awaited, me)) {
-                /* It ended in this same instant, its wakeup is already on its way */
-                (void)cmb_event_pattern_cancel(wakeup_event_process, me, CMB_ANY_OBJECT);
+            /*
+             * If it ended in this same instant its wakeup is already on its
+             * way. Stop it, and do not touch the awaited process: it has let
+             * go of us, and its owner may have disposed of it by now.
+             */
+            if (cmb_event_pattern_cancel(wakeup_event_process, me,
+                                         CMB_ANY_OBJECT) == 0u) {
+                (void)cmi_process_remove_waiter(awaited, me);
             }
         }
 
@@ -630,10 +635,17 @@ void cmi_process_cancel_awaiteds(struct cmb_process *pp)
             }
         }
         else if (pa->type == CMI_PROCESS_AWAITABLE_PROCESS) {
-            /* Waits for a process to end, remove ourselves from the waiter list */
-           cmb_assert_debug(pa->ptr != NULL);
+            /*
+             * Waits for a process to end, remove ourselves from the waiter list.
+             * If it has just ended, our wakeup is on its way (cancelled below),
+             * it has let go of us and its owner may have disposed of it by now.
+             */
+            cmb_assert_debug(pa->ptr != NULL);
             struct cmb_process *pw = (struct cmb_process *)pa->ptr;
-            (void)cmi_process_remove_waiter(pw, pp);
+            if (cmb_event_pattern_count(wakeup_event_process, pp,
+                                        CMB_ANY_OBJECT) == 0u) {
+                (void)cmi_process_remove_waiter(pw, pp);
+            }
         }
         else if (pa->type == CMI_PROCESS_AWAITABLE_EVENT) {
             /* Waits for a specific event, remove ourselves from the event's list */
